@@ -102,7 +102,7 @@ def Coll.isCreated (c : Coll) : Bool := !c.docs.isEmpty || !c.indexes.isEmpty ||
 /-- existence is recorded: a collection that holds a document or an index has the created flag
     set (documents get in through `__setitem__` only, indexes through `create_index` only, and
     both set the flag; `drop()` clears all three).  An invariant of every history, not of every
-    value of the type (`Proofs.C08Lemmas.recorded_stepX`, `Props.C08.reachable_recorded`). -/
+    value of the type (`Proofs.Recorded.recorded_stepX`, `Props.C08.reachable_recorded`). -/
 def Coll.Recorded (c : Coll) : Prop := (c.docs ≠ [] ∨ c.indexes ≠ []) → c.forceCreated = true
 
 /-! ### TTL expiry (store.py:137-188) -/
